@@ -99,14 +99,22 @@ inductive Deep (tok : Bytes → Option (List Token)) : Tree → Prop
 
 /-! ### Values -/
 
+/-- Result of reading a literal token as a number. -/
+inductive NumRes (α : Type) where
+  | val (v : α)
+  | notNum
+  /-- a spelling the instance declines to model (the driver then answers `unmodelled`) -/
+  | unmodelled (why : String)
+
 /-- The arithmetic a formula is evaluated in (float64 in the real code).  Kept abstract for the
     parsing and simplification theorems. -/
 structure Arith (α : Type) where
   zero : α
   /-- `float64(v)` of a literal accepted by `strconv.ParseInt(s, 0, 64)` -/
   ofInt : Int → α
-  /-- the decimal `m · 10^e` (`strconv.ParseFloat`); `none` = out of range -/
-  ofDec : Nat → Int → Option α
+  /-- `strconv.ParseFloat(s, 64)` of a literal token that `ParseInt` rejected; `notNum` = error
+      (syntax, or range: the value rounds to ±Inf) -/
+  parseFloat : Bytes → NumRes α
   inf : α
   nan : α
   /-- `ops[code]` -/
